@@ -67,6 +67,7 @@ def im_core(ctx):
         c06.r06_4(ctx, lag)
         c08.r08_1(ctx, c08.stream_fns(F) + [lag])
         c08.r08_3(ctx, c08.stream_fns(F), lag)
+    c06.r06_3(ctx)   # a Reset only as the answer to a lag (never made up by a mutator / commit)
     c06.r06_5(ctx)
     c06.r06_6(ctx)
 
